@@ -19,7 +19,9 @@ def path_str_to_parts(path_str: str):
 
 RESERVED_KEYWORDS = {
     'PERSIST', 'IF', 'EXISTS', 'NULLS', 'FIRST', 'LAST',
-    'ORDER', 'BY', 'GROUP', 'PARTITION'
+    'ORDER', 'BY', 'GROUP', 'PARTITION',
+    # single-word keywords that contain an underscore
+    'PRIMARY_KEY', 'KNOWLEDGE_BASE', 'KNOWLEDGE_BASES', 'ML_ENGINE', 'ML_ENGINES', 'PERSIST_ONLY', 'SEARCH_PATH',
 }
 
 
